@@ -34,7 +34,7 @@ theorem start_bridge (s : UnlSt) (h : WF s) (t : Int) :
   | true =>
     right
     have hso : s.startOnce = true := by rw [← h]; exact hst
-    exact ⟨by simp [unlimitedSchedule_Start, StartSync_MarkStarted, hst], by simp [toLeaf, hso, Leaf.start]⟩
+    exact ⟨by simp [unlimitedSchedule_Start, StartSync_MarkStarted, hst, hso], by simp [toLeaf, hso, Leaf.start]⟩
   | false =>
     left
     have hso : s.startOnce = false := by rw [← h]; exact hst
